@@ -13,6 +13,7 @@ from . import sym as S
 _exec = ThreadPoolExecutor(max_workers=1, thread_name_prefix="z3")
 _cache = {}
 _ufdecl = {}
+FEAS_TIMEOUT = [5.0]
 
 STATS = {"queries": 0, "sat": 0, "unsat": 0, "unknown": 0, "solver_s": 0.0, "feas_queries": 0,
          "fastpath": 0, "cross_checked": 0, "cross_disagree": 0, "smt_samples": []}
@@ -147,7 +148,7 @@ def _feasible(conds):
         return False
     if not conds:
         return True
-    res, _ = check(conds, timeout_s=20.0, want_model=False, kind="feas")
+    res, _ = check(conds, timeout_s=FEAS_TIMEOUT[0], want_model=False, kind="feas")
     if res == "sat":
         return True
     if res == "unsat":
